@@ -157,9 +157,7 @@ func RunC14(tier string) int {
 		if nontrivial {
 			run.Nontrivial(s.Shape() + "|" + strings.Join(names, ","))
 		}
-		if i < 2 {
-			run.Sample(map[string]any{"case": i, "shape": s.Shape(), "history": env.Log})
-		}
+		run.Sample(map[string]any{"case": i, "shape": s.Shape(), "history": env.Log})
 	})
 	run.Assume("the checked condition is an external marker file the harness owns; it is not a declared input, so only the output check can see it")
 	return run.Finish()
